@@ -86,7 +86,7 @@ type EnumCase struct {
 }
 
 func init() {
-	vkit.Register("enum", vkit.N{Quick: 80, Thorough: 4000}, func(t *rapid.T) EnumCase {
+	vkit.Register("enum", vkit.N{Quick: 60, Thorough: 3000}, func(t *rapid.T) EnumCase {
 		c := EnumCase{Base: tsofix.GenCase(t, "enum")}
 		c.Takeover = vkit.Uni(t, c.Base.Cfg.Members, "takeover")
 		all := []int64{-3600_000, -c.Base.Cfg.SaveMs - 1, -1, 0, 1, 3600_000}
